@@ -10,10 +10,12 @@ import (
 	"fmt"
 	"os"
 	"regexp"
+	"runtime"
 	"sort"
 	"strings"
 	"sync"
 	"sync/atomic"
+	"syscall"
 	"time"
 
 	"github.com/uber/kraken/lib/backend/namepath"
@@ -276,6 +278,7 @@ func main() {
 		return
 	}
 
+	runtime.GOMAXPROCS(evid.Workers())
 	maxComp, lead, idLen, budget := 2, 2, 4, 50*time.Second
 	if run.Thorough() {
 		maxComp, lead, idLen, budget = 3, 3, 5, 800*time.Second
@@ -425,6 +428,10 @@ func main() {
 	run.Set("blobpath_differs_from_reference_layout", layoutDisagree)
 	if firstDisagree != nil {
 		run.Set("first_layout_difference", firstDisagree)
+	}
+	var ru syscall.Rusage
+	if syscall.Getrusage(syscall.RUSAGE_SELF, &ru) == nil {
+		run.Set("cpu_s", float64(ru.Utime.Sec+ru.Stime.Sec)+float64(ru.Utime.Usec+ru.Stime.Usec)/1e6)
 	}
 	run.Finish()
 }
